@@ -254,9 +254,9 @@ pub fn case_child(args: &Args) {
         let (action, text, wait_ms): (String, Option<String>, u64) = match kind {
             0..=9 => {
                 let hash = pool[*rng.pick(&may[i])];
-                let second_pid = rng.chance(1, 14);
+                let second_pid = rng.chance(1, 9);
                 let pid = if second_pid { pids[(i + 1) % 5] } else { pids[i] };
-                let ev = *rng.pick(&[0u8, 0, 2, 2, 1, 3]);
+                let ev = if second_pid { *rng.pick(&[3u8, 3, 0, 2]) } else { *rng.pick(&[0u8, 0, 2, 2, 1, 3]) };
                 let left: Option<u64> = *rng.pick(&[None, Some(0), Some(5)]);
                 let offers: Option<Vec<(u8, u64)>> = if ev != 3 && rng.chance(1, 2) {
                     Some((0..2).map(|_| { sdp += 1; (rng.below(4) as u8, sdp) }).collect())
